@@ -368,6 +368,10 @@ struct FnInfo {
     ret_name: String,
     trait_impl: bool,
     has_body: bool,
+    params: String,
+    generics: String,
+    where_clause: String,
+    has_mut_ref: bool,
 }
 
 struct LoopMarker {
@@ -423,7 +427,13 @@ fn param_names(sig: &syn::Signature) -> BTreeSet<String> {
 
 fn mark_fn(qual: &str, sig: &mut syn::Signature, block: Option<&mut syn::Block>, trait_impl: bool, name_ret: bool, infos: &mut Vec<FnInfo>) {
     let line = sig.ident.span().start().line;
-    let mut info = FnInfo { name: qual.to_string(), line, loops: vec![], has_ret: false, ret_name: String::new(), trait_impl, has_body: block.is_some() };
+    let has_mut_ref = sig.inputs.iter().any(|a| match a {
+        syn::FnArg::Receiver(r) => r.mutability.is_some() && r.reference.is_some(),
+        syn::FnArg::Typed(t) => matches!(&*t.ty, Type::Reference(r) if r.mutability.is_some()),
+    });
+    let mut info = FnInfo { name: qual.to_string(), line, loops: vec![], has_ret: false, ret_name: String::new(), trait_impl, has_body: block.is_some(),
+        params: sig.inputs.to_token_stream().to_string(), generics: sig.generics.to_token_stream().to_string(),
+        where_clause: sig.generics.where_clause.as_ref().map(|w| w.to_token_stream().to_string()).unwrap_or_default(), has_mut_ref };
     if let ReturnType::Type(..) = &sig.output {
         info.has_ret = true;
     }
@@ -604,7 +614,8 @@ fn main() {
                     "selector": sel.raw, "file": file, "line": line, "kind": kind, "name": name,
                     "orig": orig_text, "extracted": extracted_text, "text": marked_text,
                     "fns": infos.iter().map(|f| json!({"name": f.name, "line": f.line, "loops": f.loops, "has_ret": f.has_ret,
-                        "ret_name": f.ret_name, "trait_impl": f.trait_impl, "has_body": f.has_body})).collect::<Vec<_>>(),
+                        "ret_name": f.ret_name, "trait_impl": f.trait_impl, "has_body": f.has_body,
+                        "params": f.params, "generics": f.generics, "where_clause": f.where_clause, "has_mut_ref": f.has_mut_ref})).collect::<Vec<_>>(),
                 }));
             }
         }
